@@ -2,6 +2,7 @@
 """Run checks against a seeded change in a scratch worktree (never touches /repo's working tree).
 usage: seedtest.py [-R] [--thorough] <patch> <prop> [<prop>...]      (-R: reverse-apply, e.g. to undo a fix: commit)"""
 import sys, subprocess, os, json
+ROOT = os.path.dirname(os.path.dirname(os.path.abspath(__file__)))
 args = sys.argv[1:]
 rev = "-R" in args
 thorough = "--thorough" in args
@@ -18,7 +19,7 @@ try:
     if ap.returncode:
         sys.exit("patch does not apply: " + ap.stderr)
     for p in props:
-        r = subprocess.run(["python3", "/verif/bin/check.py", p, "--tier", "thorough" if thorough else "quick"], cwd="/verif", capture_output=True, text=True,
+        r = subprocess.run(["python3", os.path.join(ROOT, "bin", "check.py"), p, "--tier", "thorough" if thorough else "quick"], cwd=ROOT, capture_output=True, text=True,
                            env=dict(os.environ, VERIF_NO_EVIDENCE="1", VERIF_REPO=wt))
         lines = [l for l in (r.stdout + r.stderr).splitlines() if l.startswith(("VIOLATION", "INFRA")) or " violation(s)" in l]
         print("== %s%s %s -> exit %d" % (name, " (reversed)" if rev else "", p, r.returncode))
